@@ -52,6 +52,13 @@ DownExts(L, E) == {e \in DOMAIN L.pos : \E s \in E : e \subseteq s}
 R_UpsetUnion(L, E)   == LET s == SortSets(UpExts(L, E), ShortLess)  IN [i \in 1..Len(s) |-> SortedSeq(s[i])]
 R_DownsetUnion(L, E) == LET s == SortSets(DownExts(L, E), LongLess) IN [i \in 1..Len(s) |-> SortedSeq(s[i])]
 
+(* Lattice.upset_generalization (documented as experimental): the members above some seed whose extent stays   *)
+(* inside the union T of the seeds' extents, in iteration order; the traversal stops at a member whose extent   *)
+(* is T, which - having the largest possible extent - is the last one anyway.  Bound as an observation clause.  *)
+GenExts(L, E) == LET T == UNION E IN {e \in UpExts(L, E) : e \subseteq T}
+R_UpsetGeneralization(L, E) ==
+    LET s == SortSets(GenExts(L, E), ShortLess) IN [i \in 1..Len(s) |-> SortedSeq(s[i])]
+
 (* generating property sets, shortest first then by position = shortlex on positions *)
 R_Attributes(k, e) ==
     IF e = {} THEN << SortedSeq(Intent(k, e)) >>
